@@ -1072,6 +1072,29 @@ def uri_program(s):
     return prog
 
 
+ESCAPE_COUNTS = list(range(0, 41)) + [63, 64, 65, 127, 128, 129, 255, 256, 257, 1023, 1024, 1025]
+ESCAPE_DEFECTS = ['', '%', '%2', '%zz', '%G0', '%0g', ' ', '\u00e9']
+
+
+def long_escape_cases():
+    """Values made of N well-formed %XX escapes (every N up to 40, then around powers of two) with one
+    element that is not an escape (bare or malformed '%', a character that needs escaping, or nothing)
+    placed before, amid or after them -> (n, defect, position, string)."""
+    octets = ['%20', '%2F', '%c3%a9', '%C3%A9', '%7e', '%41', '%e2%82%ac', '%0A']
+    for n in ESCAPE_COUNTS:
+        parts = []
+        k = 0
+        while sum(p.count('%') for p in parts) < n:
+            o = octets[k % len(octets)]
+            if sum(p.count('%') for p in parts) + o.count('%') > n:
+                o = '%41'
+            parts.append(o + ('' if n % 2 else 'a/'[k % 2]))
+            k += 1
+        for defect in ESCAPE_DEFECTS:
+            for pos in sorted({0, len(parts) // 2, len(parts)}):
+                yield n, defect, pos, 'http://ex.org/p?q=' + ''.join(parts[:pos]) + defect + ''.join(parts[pos:])
+
+
 def directed_programs():
     """Fixed histories that reach every branch class the floors name, whatever the time budget."""
     out = []
@@ -1463,6 +1486,16 @@ def run(rec):
             rec.count('phase.D')
             if idx % 1499 == 0:
                 rec.sample({'uri_input': s})
+    # -- phase F: many escapes around one element that is not an escape (sizes around internal constants)
+    for j, (n, defect, pos, sv) in enumerate(long_escape_cases()):
+        if j % rec.nshards != rec.shard:
+            continue
+        run_program(rec, uri_program(sv)[:4], True, key=('F', n, defect, pos))
+        rec.count('phase.F')
+        if defect.startswith('%') and n >= 9:
+            rec.count('uri.many_escapes_then_malformed')
+        if defect == '' and n >= 9:
+            rec.count('uri.many_escapes_wellformed')
     # -- phase E: directed histories (branch classes named by the floors)
     for j, prog in enumerate(directed_programs()):
         if j % rec.nshards != rec.shard:
@@ -1477,7 +1510,8 @@ def run(rec):
                  % (maxlen, len(SYMS), 2 * 3 * 5 * 2 * 2 * 3 * 2 * 4 * 2, ulen, len(URI_ALPHABET)))
     # -- phase C: random histories
     n = 0
-    while rec.budget_ok(frac):
+    # at least 60 per shard whatever the machine load (sized by count), then until the budget is used
+    while n < 60 or rec.budget_ok(frac):
         for _ in range(20):
             prog = g_history(rng)
             sd = rng.random() < 0.5
@@ -1499,6 +1533,9 @@ def run(rec):
     rec.floor('phase.D', 500)
     rec.floor('phase.C', 200)
     rec.floor('phase.E', 110)
+    rec.floor('phase.F', 1000)
+    rec.floor('uri.many_escapes_then_malformed', 400)
+    rec.floor('uri.many_escapes_wellformed', 80)
     for c, nmin in [('mon.headers', 2000), ('mon.get_header', 4000), ('mon.prop_read', 10000), ('get.recased', 500),
                     ('get.present', 500), ('get.absent', 500), ('mon.emission', 800), ('mon.emit_plain', 500),
                     ('mon.asgi_name_case', 500), ('mon.cookie_lines', 500), ('mon.raw_cookie', 100),
